@@ -223,4 +223,575 @@ theorem forBreak_exit {σ : Type} (b : σ → σ × Bool) :
             simp only [Function.iterate_succ, Function.comp_apply]
             exact hall j (by omega)
 
+/-! ## 3. periodicity in the longitude difference (antimeridian case) -/
+
+theorem sinSigma_add_two_pi (u1 u2 lon : ℝ) :
+    sinSigma u1 u2 (lon + 2 * Real.pi) = sinSigma u1 u2 lon := by
+  unfold sinSigma; simp only [sin_def, cos_def, Real.sin_add_two_pi, Real.cos_add_two_pi]
+
+theorem cosSigma_add_two_pi (u1 u2 lon : ℝ) :
+    cosSigma u1 u2 (lon + 2 * Real.pi) = cosSigma u1 u2 lon := by
+  unfold cosSigma; simp only [sin_def, cos_def, Real.cos_add_two_pi]
+
+theorem sigmaOf_add_two_pi (u1 u2 lon : ℝ) :
+    sigmaOf u1 u2 (lon + 2 * Real.pi) = sigmaOf u1 u2 lon := by
+  unfold sigmaOf; rw [sinSigma_add_two_pi, cosSigma_add_two_pi]
+
+theorem alphaOf_add_two_pi (u1 u2 lon : ℝ) :
+    alphaOf u1 u2 (lon + 2 * Real.pi) = alphaOf u1 u2 lon := by
+  unfold alphaOf; rw [sinSigma_add_two_pi]; simp only [sin_def, Real.sin_add_two_pi]
+
+theorem c2smOf_add_two_pi (u1 u2 lon : ℝ) :
+    c2smOf u1 u2 (lon + 2 * Real.pi) = c2smOf u1 u2 lon := by
+  unfold c2smOf; rw [sigmaOf_add_two_pi, alphaOf_add_two_pi]
+
+theorem newLon_add_two_pi (u1 u2 omega f lon : ℝ) :
+    newLon u1 u2 (omega + 2 * Real.pi) f (lon + 2 * Real.pi) = newLon u1 u2 omega f lon + 2 * Real.pi := by
+  unfold newLon
+  rw [sigmaOf_add_two_pi, alphaOf_add_two_pi, c2smOf_add_two_pi]
+  unfold lonUpdate; ring
+
+theorem step_add_two_pi (u1 u2 omega f lon : ℝ) :
+    step u1 u2 (omega + 2 * Real.pi) f (lon + 2 * Real.pi) =
+      (((step u1 u2 omega f lon).1.1, (step u1 u2 omega f lon).1.2.1, (step u1 u2 omega f lon).1.2.2.1,
+        (step u1 u2 omega f lon).1.2.2.2 + 2 * Real.pi), (step u1 u2 omega f lon).2) := by
+  unfold step
+  rw [sigmaOf_add_two_pi, alphaOf_add_two_pi, c2smOf_add_two_pi, newLon_add_two_pi,
+    add_sub_add_right_eq_sub]
+
+/-- the relation between the carried states of the runs for `dlon + 360` and `dlon` -/
+def ShiftRel (s t : St) : Prop :=
+  s.1 = t.1 ∧ s.2.1 = t.2.1 ∧ s.2.2.1 = t.2.2.1 ∧ s.2.2.2 = t.2.2.2 + 2 * Real.pi
+
+theorem finalState_add_360 (lat1 lat2 dlon : ℝ) (ell : Ellipsoid) :
+    ShiftRel (finalState lat1 lat2 (dlon + 360) ell) (finalState lat1 lat2 dlon ell) := by
+  unfold finalState
+  rw [radians_add, radians_360]
+  apply forBreak_rel ShiftRel
+  · rintro s t ⟨h1, h2, h3, h4⟩
+    simp only [body]
+    rw [h4, step_add_two_pi]
+    exact ⟨⟨rfl, rfl, rfl, rfl⟩, rfl⟩
+  · exact ⟨rfl, rfl, rfl, rfl⟩
+
+theorem az12Raw_add_two_pi (u1 u2 lon : ℝ) : az12Raw u1 u2 (lon + 2 * Real.pi) = az12Raw u1 u2 lon := by
+  unfold az12Raw az12Pre; simp only [sin_def, cos_def, Real.sin_add_two_pi, Real.cos_add_two_pi]
+
+theorem az21Raw_add_two_pi (u1 u2 lon : ℝ) : az21Raw u1 u2 (lon + 2 * Real.pi) = az21Raw u1 u2 lon := by
+  unfold az21Raw; simp only [sin_def, cos_def, Real.sin_add_two_pi, Real.cos_add_two_pi]
+
+/-- unrounded results are 360-periodic in the longitude difference -/
+theorem raw_add_360 (lat1 lat2 dlon : ℝ) (ell : Ellipsoid) :
+    raw lat1 lat2 (dlon + 360) ell = raw lat1 lat2 dlon ell := by
+  obtain ⟨h1, h2, h3, h4⟩ := finalState_add_360 lat1 lat2 dlon ell
+  unfold raw distRaw
+  rw [h1, h2, h3, h4, az12Raw_add_two_pi, az21Raw_add_two_pi]
+
+theorem main_add_360 (lat1 lat2 dlon : ℝ) (ell : Ellipsoid) :
+    main lat1 lat2 (dlon + 360) ell = main lat1 lat2 dlon ell := by
+  unfold main; rw [raw_add_360]
+
+theorem main_sub_360 (lat1 lat2 dlon : ℝ) (ell : Ellipsoid) :
+    main lat1 lat2 (dlon - 360) ell = main lat1 lat2 dlon ell := by
+  have := main_add_360 lat1 lat2 (dlon - 360) ell
+  rw [sub_add_cancel] at this
+  exact this.symm
+
+/-- C05.3: replacing `lon2` by `lon2 + 360` leaves distance and both azimuths unchanged, provided
+neither call takes the coincidence branch. -/
+theorem periodic (lat1 lon1 lat2 lon2 : ℝ) (ell : Ellipsoid)
+    (h : ¬ (|lat1 - lat2| < 1 / 10 ^ 10 ∧ |lon1 - lon2| < 1 / 10 ^ 10))
+    (h' : ¬ (|lat1 - lat2| < 1 / 10 ^ 10 ∧ |lon1 - (lon2 + 360)| < 1 / 10 ^ 10)) :
+    vincinv lat1 lon1 lat2 (lon2 + 360) ell = vincinv lat1 lon1 lat2 lon2 ell := by
+  rw [not_coincident _ _ _ _ _ h, not_coincident _ _ _ _ _ h', add_sub_right_comm, main_add_360]
+
+/-- C05.3 for `lon2 − 360`. -/
+theorem periodic_sub (lat1 lon1 lat2 lon2 : ℝ) (ell : Ellipsoid)
+    (h : ¬ (|lat1 - lat2| < 1 / 10 ^ 10 ∧ |lon1 - lon2| < 1 / 10 ^ 10))
+    (h' : ¬ (|lat1 - lat2| < 1 / 10 ^ 10 ∧ |lon1 - (lon2 - 360)| < 1 / 10 ^ 10)) :
+    vincinv lat1 lon1 lat2 (lon2 - 360) ell = vincinv lat1 lon1 lat2 lon2 ell := by
+  rw [not_coincident _ _ _ _ _ h, not_coincident _ _ _ _ _ h', sub_right_comm, main_sub_360]
+
+/-- when the latitudes differ by at least the tolerance no side condition is needed. -/
+theorem periodic_of_lat (lat1 lon1 lat2 lon2 : ℝ) (ell : Ellipsoid)
+    (h : ¬ |lat1 - lat2| < 1 / 10 ^ 10) :
+    vincinv lat1 lon1 lat2 (lon2 + 360) ell = vincinv lat1 lon1 lat2 lon2 ell ∧
+    vincinv lat1 lon1 lat2 (lon2 - 360) ell = vincinv lat1 lon1 lat2 lon2 ell :=
+  ⟨periodic _ _ _ _ _ (fun hc => h hc.1) (fun hc => h hc.1),
+   periodic_sub _ _ _ _ _ (fun hc => h hc.1) (fun hc => h hc.1)⟩
+
+/-! ## 4. swapping the two points -/
+
+/-- the spherical cosine rule behind the symmetry of `sin σ`:
+`(cos u2 sin λ)² + (cos u1 sin u2 − sin u1 cos u2 cos λ)² = 1 − cos²σ`. -/
+theorem sin_sigma_sq_eq (u1 u2 lon : ℝ) :
+    (Real.cos u2 * Real.sin lon) ^ 2
+        + (Real.cos u1 * Real.sin u2 - Real.sin u1 * Real.cos u2 * Real.cos lon) ^ 2
+      = 1 - (Real.sin u1 * Real.sin u2 + Real.cos u1 * Real.cos u2 * Real.cos lon) ^ 2 := by
+  have h1 := Real.sin_sq_add_cos_sq u1
+  have h2 := Real.sin_sq_add_cos_sq u2
+  have h3 := Real.sin_sq_add_cos_sq lon
+  linear_combination (Real.cos u2 ^ 2 * Real.cos lon ^ 2 + Real.sin u2 ^ 2) * h1
+    + Real.cos u2 ^ 2 * h3 + h2
+
+/-- `sin²σ` is symmetric under swapping the points (and negating λ). -/
+theorem sin_sigma_sq_symm (u1 u2 lon : ℝ) :
+    (Real.cos u1 * Real.sin (-lon)) ^ 2
+        + (Real.cos u2 * Real.sin u1 - Real.sin u2 * Real.cos u1 * Real.cos (-lon)) ^ 2
+      = (Real.cos u2 * Real.sin lon) ^ 2
+        + (Real.cos u1 * Real.sin u2 - Real.sin u1 * Real.cos u2 * Real.cos lon) ^ 2 := by
+  rw [sin_sigma_sq_eq, sin_sigma_sq_eq, Real.cos_neg]; ring
+
+theorem sinSigma_swap (u1 u2 lon : ℝ) : sinSigma u2 u1 (-lon) = sinSigma u1 u2 lon := by
+  unfold sinSigma
+  simp only [sin_def, cos_def, pown_def, sqrt_def]
+  rw [sin_sigma_sq_symm]
+
+theorem cosSigma_swap (u1 u2 lon : ℝ) : cosSigma u2 u1 (-lon) = cosSigma u1 u2 lon := by
+  unfold cosSigma
+  simp only [sin_def, cos_def, Real.cos_neg]; ring
+
+theorem sigmaOf_swap (u1 u2 lon : ℝ) : sigmaOf u2 u1 (-lon) = sigmaOf u1 u2 lon := by
+  unfold sigmaOf; rw [sinSigma_swap, cosSigma_swap]
+
+/-- `α ↦ −α` (`asin` is odd) -/
+theorem alphaOf_swap (u1 u2 lon : ℝ) : alphaOf u2 u1 (-lon) = -alphaOf u1 u2 lon := by
+  unfold alphaOf
+  rw [sinSigma_swap]
+  simp only [sin_def, cos_def, asin_def, Real.sin_neg]
+  rw [← Real.arcsin_neg]
+  congr 1; ring
+
+theorem c2smOf_swap (u1 u2 lon : ℝ) : c2smOf u2 u1 (-lon) = c2smOf u1 u2 lon := by
+  unfold c2smOf
+  rw [sigmaOf_swap, alphaOf_swap]
+  simp only [sin_def, cos_def, Real.cos_neg]; ring
+
+theorem coefC_neg (f alpha : ℝ) : coefC f (-alpha) = coefC f alpha := by
+  unfold coefC; simp only [cos_def, Real.cos_neg]
+
+theorem lonUpdate_neg (omega f sigma alpha c2sm : ℝ) :
+    lonUpdate (-omega) f sigma (-alpha) c2sm = -lonUpdate omega f sigma alpha c2sm := by
+  unfold lonUpdate
+  rw [coefC_neg]
+  simp only [sin_def, Real.sin_neg]; ring
+
+/-- `λ_{k+1} ↦ −λ_{k+1}` -/
+theorem newLon_swap (u1 u2 omega f lon : ℝ) :
+    newLon u2 u1 (-omega) f (-lon) = -newLon u1 u2 omega f lon := by
+  unfold newLon
+  rw [sigmaOf_swap, alphaOf_swap, c2smOf_swap, lonUpdate_neg]
+
+theorem step_swap (u1 u2 omega f lon : ℝ) :
+    step u2 u1 (-omega) f (-lon) =
+      (((step u1 u2 omega f lon).1.1, -(step u1 u2 omega f lon).1.2.1, (step u1 u2 omega f lon).1.2.2.1,
+        -(step u1 u2 omega f lon).1.2.2.2), (step u1 u2 omega f lon).2) := by
+  unfold step
+  rw [sigmaOf_swap, alphaOf_swap, c2smOf_swap, newLon_swap]
+  have : absf (-newLon u1 u2 omega f lon - -lon) = absf (newLon u1 u2 omega f lon - lon) := by
+    simp only [absf_def]; rw [← abs_neg]; congr 1; ring
+  rw [this]
+
+/-- the relation between the carried states of the swapped and the original run -/
+def SwapRel (s t : St) : Prop :=
+  s.1 = t.1 ∧ s.2.1 = -t.2.1 ∧ s.2.2.1 = t.2.2.1 ∧ s.2.2.2 = -t.2.2.2
+
+/-- C05.4 (iterates): swapping the points maps σ, cos 2σ_m to themselves and α, λ to their
+negatives, at loop exit (and the two runs exit after the same number of passes). -/
+theorem finalState_swap (lat1 lat2 dlon : ℝ) (ell : Ellipsoid) :
+    SwapRel (finalState lat2 lat1 (-dlon) ell) (finalState lat1 lat2 dlon ell) := by
+  unfold finalState
+  have hr : radians (-dlon) = -radians dlon := by simp only [radians_def]; ring
+  rw [hr]
+  apply forBreak_rel SwapRel
+  · rintro s t ⟨h1, h2, h3, h4⟩
+    simp only [body]
+    rw [h4, step_swap]
+    exact ⟨⟨rfl, rfl, rfl, rfl⟩, rfl⟩
+  · exact ⟨rfl, by simp, rfl, rfl⟩
+
+theorem uSq_neg (ell : Ellipsoid) (alpha : ℝ) : uSq ell (-alpha) = uSq ell alpha := by
+  unfold uSq; simp only [cos_def, Real.cos_neg]
+
+/-- unrounded distance is symmetric -/
+theorem raw_dist_swap (lat1 lat2 dlon : ℝ) (ell : Ellipsoid) :
+    (raw lat2 lat1 (-dlon) ell).1 = (raw lat1 lat2 dlon ell).1 := by
+  obtain ⟨h1, h2, h3, h4⟩ := finalState_swap lat1 lat2 dlon ell
+  unfold raw distRaw
+  simp only
+  rw [h1, h2, h3, uSq_neg]
+
+theorem coincident_swap (lat1 lon1 lat2 lon2 : ℝ) :
+    Coincident lat2 lon2 lat1 lon1 ↔ Coincident lat1 lon1 lat2 lon2 := by
+  unfold Coincident; simp only [absf_def]; rw [abs_sub_comm lat2 lat1, abs_sub_comm lon2 lon1]
+
+/-- C05.4 (distance): swapping the two points returns the same distance — unconditionally. -/
+theorem swap_symmetric_distance (lat1 lon1 lat2 lon2 : ℝ) (ell : Ellipsoid) :
+    (vincinv lat2 lon2 lat1 lon1 ell).1 = (vincinv lat1 lon1 lat2 lon2 ell).1 := by
+  rw [vincinv_eq, vincinv_eq]
+  by_cases h : Coincident lat1 lon1 lat2 lon2
+  · rw [if_pos h, if_pos ((coincident_swap _ _ _ _).2 h)]
+  · rw [if_neg h, if_neg (fun h' => h ((coincident_swap _ _ _ _).1 h'))]
+    have : lon1 - lon2 = -(lon2 - lon1) := by ring
+    unfold main
+    simp only
+    rw [this, raw_dist_swap]
+
+/-! ## 4b. swapping the two points: azimuths -/
+
+/-- `Complex.arg (−z) = Complex.arg z ± π`, read through the code's two azimuth conventions:
+the wrapped `degrees(arg(−z))` equals `degrees(arg z) + 180`, except on the negative real axis
+where the former is 0 and the latter 360. -/
+theorem wrap_arg_neg (z : ℂ) (hz : z ≠ 0) :
+    (if degrees (-z).arg < 0 then degrees (-z).arg + 360 else degrees (-z).arg) = degrees z.arg + 180 ∨
+    ((if degrees (-z).arg < 0 then degrees (-z).arg + 360 else degrees (-z).arg) = 0 ∧
+      degrees z.arg + 180 = 360) := by
+  have hpi := Real.pi_pos
+  have hk : 0 < 180 / Real.pi := by positivity
+  have hdpi : Real.pi * (180 / Real.pi) = 180 := by field_simp
+  obtain ⟨h1, h2⟩ := Complex.arg_mem_Ioc z
+  have hcases : (-z).arg = z.arg - Real.pi ∨ (-z).arg = z.arg + Real.pi := by
+    rcases lt_trichotomy z.im 0 with hi | hi | hi
+    · exact Or.inr (Complex.arg_neg_eq_arg_add_pi_iff.2 (Or.inl hi))
+    · rcases lt_trichotomy z.re 0 with hr | hr | hr
+      · exact Or.inl (Complex.arg_neg_eq_arg_sub_pi_iff.2 (Or.inr ⟨hi, hr⟩))
+      · exact absurd (Complex.ext hr hi) hz
+      · exact Or.inr (Complex.arg_neg_eq_arg_add_pi_iff.2 (Or.inr ⟨hi, hr⟩))
+    · exact Or.inl (Complex.arg_neg_eq_arg_sub_pi_iff.2 (Or.inl hi))
+  simp only [degrees_def]
+  rcases hcases with h | h
+  · have hd : (-z).arg * (180 / Real.pi) = z.arg * (180 / Real.pi) - 180 := by
+      rw [h, sub_mul, hdpi]
+    have hle : z.arg * (180 / Real.pi) ≤ 180 :=
+      le_of_le_of_eq (mul_le_mul_of_nonneg_right h2 hk.le) hdpi
+    rw [hd]
+    split_ifs with hneg
+    · left; ring
+    · right; constructor <;> linarith
+  · have hd : (-z).arg * (180 / Real.pi) = z.arg * (180 / Real.pi) + 180 := by
+      rw [h, add_mul, hdpi]
+    have hgt : -180 < z.arg * (180 / Real.pi) := by
+      have : (-Real.pi) * (180 / Real.pi) = -180 := by rw [neg_mul, hdpi]
+      exact lt_of_eq_of_lt this.symm (mul_lt_mul_of_pos_right h1 hk)
+    rw [hd]
+    split_ifs with hneg
+    · exfalso; linarith
+    · left; rfl
+
+/-- forward azimuth of the swapped pair (at `−λ`) against reverse azimuth of the original pair. -/
+theorem az12Raw_swap (u1 u2 lon : ℝ)
+    (hz : ¬ (Real.cos u1 * Real.sin lon = 0 ∧
+      -Real.sin u1 * Real.cos u2 + Real.cos u1 * Real.sin u2 * Real.cos lon = 0)) :
+    az12Raw u2 u1 (-lon) = az21Raw u1 u2 lon ∨
+      (az12Raw u2 u1 (-lon) = 0 ∧ az21Raw u1 u2 lon = 360) := by
+  have hz' : (⟨-Real.sin u1 * Real.cos u2 + Real.cos u1 * Real.sin u2 * Real.cos lon,
+      Real.cos u1 * Real.sin lon⟩ : ℂ) ≠ 0 := by
+    intro h
+    exact hz ⟨congrArg Complex.im h, congrArg Complex.re h⟩
+  have hneg : (⟨Real.cos u2 * Real.sin u1 - Real.sin u2 * Real.cos u1 * Real.cos (-lon),
+      Real.cos u1 * Real.sin (-lon)⟩ : ℂ) =
+      -⟨-Real.sin u1 * Real.cos u2 + Real.cos u1 * Real.sin u2 * Real.cos lon,
+        Real.cos u1 * Real.sin lon⟩ := by
+    apply Complex.ext
+    · simp only [Complex.neg_re, Real.cos_neg]; ring
+    · simp only [Complex.neg_im, Real.sin_neg]; ring
+  have := wrap_arg_neg _ hz'
+  unfold az12Raw az12Pre az21Raw
+  simp only [sin_def, cos_def, atan2_def]
+  rw [hneg]
+  exact this
+
+/-- reverse azimuth of the swapped pair (at `−λ`) against forward azimuth of the original pair. -/
+theorem az21Raw_swap (u1 u2 lon : ℝ)
+    (hw : ¬ (Real.cos u2 * Real.sin lon = 0 ∧
+      Real.cos u1 * Real.sin u2 - Real.sin u1 * Real.cos u2 * Real.cos lon = 0)) :
+    az12Raw u1 u2 lon = az21Raw u2 u1 (-lon) ∨
+      (az12Raw u1 u2 lon = 0 ∧ az21Raw u2 u1 (-lon) = 360) := by
+  have hw' : (⟨-Real.sin u2 * Real.cos u1 + Real.cos u2 * Real.sin u1 * Real.cos (-lon),
+      Real.cos u2 * Real.sin (-lon)⟩ : ℂ) ≠ 0 := by
+    intro h
+    have hre := congrArg Complex.re h
+    have him := congrArg Complex.im h
+    simp only [Complex.zero_re, Complex.zero_im, Real.cos_neg, Real.sin_neg] at hre him
+    exact hw ⟨by linarith, by linarith⟩
+  have hneg : (⟨Real.cos u1 * Real.sin u2 - Real.sin u1 * Real.cos u2 * Real.cos lon,
+      Real.cos u2 * Real.sin lon⟩ : ℂ) =
+      -⟨-Real.sin u2 * Real.cos u1 + Real.cos u2 * Real.sin u1 * Real.cos (-lon),
+        Real.cos u2 * Real.sin (-lon)⟩ := by
+    apply Complex.ext
+    · simp only [Complex.neg_re, Real.cos_neg]; ring
+    · simp only [Complex.neg_im, Real.sin_neg]; ring
+  have := wrap_arg_neg _ hw'
+  unfold az12Raw az12Pre az21Raw
+  simp only [sin_def, cos_def, atan2_def]
+  rw [hneg]
+  exact this
+
+/-- C05.4 (azimuths, unrounded): with `λ` the final longitude iterate of the original run (the
+swapped run ends at `−λ`), the forward azimuth of the swapped pair is the reverse azimuth of the
+original pair and vice versa, except that a reverse azimuth of exactly 360 corresponds to a
+forward azimuth of 0 (so always equal mod 360). The hypotheses exclude `atan2(0, 0)`. -/
+theorem swap_symmetric_azimuths (lat1 lat2 dlon : ℝ) (ell : Ellipsoid)
+    (hz : ¬ (Real.cos (redLat ell.f lat1) * Real.sin (finalState lat1 lat2 dlon ell).2.2.2 = 0 ∧
+      -Real.sin (redLat ell.f lat1) * Real.cos (redLat ell.f lat2)
+        + Real.cos (redLat ell.f lat1) * Real.sin (redLat ell.f lat2)
+          * Real.cos (finalState lat1 lat2 dlon ell).2.2.2 = 0))
+    (hw : ¬ (Real.cos (redLat ell.f lat2) * Real.sin (finalState lat1 lat2 dlon ell).2.2.2 = 0 ∧
+      Real.cos (redLat ell.f lat1) * Real.sin (redLat ell.f lat2)
+        - Real.sin (redLat ell.f lat1) * Real.cos (redLat ell.f lat2)
+          * Real.cos (finalState lat1 lat2 dlon ell).2.2.2 = 0)) :
+    ((raw lat2 lat1 (-dlon) ell).2.1 = (raw lat1 lat2 dlon ell).2.2 ∨
+      ((raw lat2 lat1 (-dlon) ell).2.1 = 0 ∧ (raw lat1 lat2 dlon ell).2.2 = 360)) ∧
+    ((raw lat1 lat2 dlon ell).2.1 = (raw lat2 lat1 (-dlon) ell).2.2 ∨
+      ((raw lat1 lat2 dlon ell).2.1 = 0 ∧ (raw lat2 lat1 (-dlon) ell).2.2 = 360)) := by
+  obtain ⟨_, _, _, h4⟩ := finalState_swap lat1 lat2 dlon ell
+  unfold raw
+  simp only
+  rw [h4]
+  exact ⟨az12Raw_swap _ _ _ hz, az21Raw_swap _ _ _ hw⟩
+
+/-- the non-degeneracy hypotheses of `az12Raw_swap` / `az21Raw_swap` are satisfiable -/
+example : ¬ (Real.cos 0 * Real.sin (Real.pi / 2) = 0 ∧
+    -Real.sin 0 * Real.cos 0 + Real.cos 0 * Real.sin 0 * Real.cos (Real.pi / 2) = 0) := by
+  intro h; have := h.1; simp at this
+
+/-! ## 5. azimuth ranges -/
+
+theorem degrees_arg_bounds (z : ℂ) : -180 < degrees z.arg ∧ degrees z.arg ≤ 180 := by
+  have hpi := Real.pi_pos
+  obtain ⟨h1, h2⟩ := Complex.arg_mem_Ioc z
+  simp only [degrees_def]
+  have hk : 0 < 180 / Real.pi := by positivity
+  constructor
+  · have : (-Real.pi) * (180 / Real.pi) = -180 := by field_simp
+    rw [← this]; exact mul_lt_mul_of_pos_right h1 hk
+  · have : Real.pi * (180 / Real.pi) = 180 := by field_simp
+    calc z.arg * (180 / Real.pi) ≤ Real.pi * (180 / Real.pi) := mul_le_mul_of_nonneg_right h2 hk.le
+      _ = 180 := this
+
+/-- the wrapped forward azimuth lies in `[0, 360)` -/
+theorem az12Raw_range (u1 u2 lon : ℝ) : 0 ≤ az12Raw u1 u2 lon ∧ az12Raw u1 u2 lon < 360 := by
+  have hb : -180 < az12Pre u1 u2 lon ∧ az12Pre u1 u2 lon ≤ 180 := by
+    unfold az12Pre; exact degrees_arg_bounds _
+  unfold az12Raw
+  split_ifs with h
+  · constructor <;> linarith [hb.1, hb.2]
+  · constructor <;> linarith [hb.1, hb.2]
+
+/-- the reverse azimuth `degrees(atan2 …) + 180` lies in `(0, 360]` -/
+theorem az21Raw_range (u1 u2 lon : ℝ) : 0 < az21Raw u1 u2 lon ∧ az21Raw u1 u2 lon ≤ 360 := by
+  have hb := degrees_arg_bounds
+    (⟨(((-(sin u1)) * (cos u2)) + (((cos u1) * (sin u2)) * (cos lon))), ((cos u1) * (sin lon))⟩ : ℂ)
+  unfold az21Raw
+  constructor <;> linarith [hb.1, hb.2]
+
+/-- C05.5: in the main branch the result is the rounding of `raw`, whose forward azimuth is in
+`[0, 360)` and whose reverse azimuth is in `(0, 360]`. -/
+theorem azimuth_range (lat1 lon1 lat2 lon2 : ℝ) (ell : Ellipsoid)
+    (h : ¬ (|lat1 - lat2| < 1 / 10 ^ 10 ∧ |lon1 - lon2| < 1 / 10 ^ 10)) :
+    (vincinv lat1 lon1 lat2 lon2 ell).2.1 = pround 9 (raw lat1 lat2 (lon2 - lon1) ell).2.1 ∧
+    (vincinv lat1 lon1 lat2 lon2 ell).2.2 = pround 9 (raw lat1 lat2 (lon2 - lon1) ell).2.2 ∧
+    (raw lat1 lat2 (lon2 - lon1) ell).2.1 ∈ Set.Ico (0 : ℝ) 360 ∧
+    (raw lat1 lat2 (lon2 - lon1) ell).2.2 ∈ Set.Ioc (0 : ℝ) 360 := by
+  rw [not_coincident_raw _ _ _ _ _ h]
+  exact ⟨rfl, rfl, az12Raw_range _ _ _, az21Raw_range _ _ _⟩
+
+theorem roundHalfEven_bounds (y : ℝ) (a b : ℤ) (ha : (a : ℝ) ≤ y) (hb : y ≤ (b : ℝ)) :
+    a ≤ roundHalfEven y ∧ roundHalfEven y ≤ b := by
+  have hfl : a ≤ ⌊y⌋ := Int.le_floor.2 ha
+  have hfu : ⌊y⌋ ≤ b := by
+    have : ((⌊y⌋ : ℤ) : ℝ) ≤ (b : ℝ) := le_trans (Int.floor_le y) hb
+    exact_mod_cast this
+  unfold roundHalfEven
+  split_ifs with h1 h2
+  · exact ⟨hfl, hfu⟩
+  · refine ⟨by omega, ?_⟩
+    have hy := Int.self_sub_floor y
+    rw [h1] at hy
+    have : ((⌊y⌋ : ℤ) : ℝ) < (b : ℝ) := by linarith
+    have : ⌊y⌋ < b := by exact_mod_cast this
+    omega
+  · rw [round_eq]
+    constructor
+    · apply Int.le_floor.2; linarith
+    · have : ⌊y + 1 / 2⌋ < b + 1 := by
+        apply Int.floor_lt.2; push_cast; linarith
+      omega
+
+theorem pround_bounds (n : ℕ) (x : ℝ) (N : ℕ) (h0 : 0 ≤ x) (h1 : x ≤ N) :
+    0 ≤ pround n x ∧ pround n x ≤ N := by
+  have hp : (0 : ℝ) < 10 ^ n := by positivity
+  obtain ⟨ha, hb⟩ := roundHalfEven_bounds (x * 10 ^ n) 0 ((N * 10 ^ n : ℕ) : ℤ)
+    (by push_cast; positivity) (by push_cast; exact mul_le_mul_of_nonneg_right h1 hp.le)
+  unfold pround
+  constructor
+  · apply div_nonneg _ hp.le; exact_mod_cast ha
+  · rw [div_le_iff₀ hp]
+    have : ((roundHalfEven (x * 10 ^ n) : ℤ) : ℝ) ≤ (((N * 10 ^ n : ℕ) : ℤ) : ℝ) := by exact_mod_cast hb
+    simpa using this
+
+/-- C05.5 (returned values): after rounding both azimuths lie in `[0, 360]` (the forward azimuth can
+round up to 360.0 only from within 5·10⁻¹⁰ of it). Holds in both branches. -/
+theorem azimuth_range_rounded (lat1 lon1 lat2 lon2 : ℝ) (ell : Ellipsoid) :
+    (vincinv lat1 lon1 lat2 lon2 ell).2.1 ∈ Set.Icc (0 : ℝ) 360 ∧
+    (vincinv lat1 lon1 lat2 lon2 ell).2.2 ∈ Set.Icc (0 : ℝ) 360 := by
+  by_cases h : (|lat1 - lat2| < 1 / 10 ^ 10 ∧ |lon1 - lon2| < 1 / 10 ^ 10)
+  · rw [coincident _ _ _ _ _ h]; simp
+  · rw [not_coincident_raw _ _ _ _ _ h]
+    have h12 := az12Raw_range (redLat ell.f lat1) (redLat ell.f lat2) (finalState lat1 lat2 (lon2 - lon1) ell).2.2.2
+    have h21 := az21Raw_range (redLat ell.f lat1) (redLat ell.f lat2) (finalState lat1 lat2 (lon2 - lon1) ell).2.2.2
+    have b12 := pround_bounds 9 _ 360 h12.1 (by push_cast; exact h12.2.le)
+    have b21 := pround_bounds 9 _ 360 h21.1.le (by push_cast; exact h21.2)
+    push_cast at b12 b21
+    exact ⟨b12, b21⟩
+
+/-! ## 6. Vincenty's coefficients and the distance formula -/
+
+/-- `A`, `B` as Vincenty's polynomials in `u²` (Horner forms expanded). -/
+theorem vincenty_AB_ref (u : ℝ) :
+    coefA u = 1 + u / 4 - 3 * u ^ 2 / 64 + 5 * u ^ 3 / 256 - 175 * u ^ 4 / 16384 ∧
+    coefB u = u / 4 - u ^ 2 / 8 + 37 * u ^ 3 / 512 - 47 * u ^ 4 / 1024 := by
+  unfold coefA coefB; constructor <;> ring
+
+/-- `C = f/16 · cos²α · (4 + f (4 − 3 cos²α))` -/
+theorem vincenty_C_ref (f alpha : ℝ) :
+    coefC f alpha = f / 16 * Real.cos alpha ^ 2 * (4 + f * (4 - 3 * Real.cos alpha ^ 2)) := by
+  unfold coefC; simp only [cos_def, pown_def]
+
+/-- `u² = cos²α (a² − b²)/b²` with `a`, `b` the ellipsoid argument's semi-axes -/
+theorem u_squared_def (ell : Ellipsoid) (alpha : ℝ) :
+    uSq ell alpha = Real.cos alpha ^ 2 * (ell.semimaj ^ 2 - ell.semimin ^ 2) / ell.semimin ^ 2 := by
+  unfold uSq; simp only [cos_def, pown_def]
+
+/-- C05.6: the unrounded distance is `b·A·(σ − Δσ)` with Vincenty's `Δσ`, evaluated at the final
+loop state `(σ, α, cos 2σ_m, _)`. -/
+theorem distance_formula (lat1 lat2 dlon : ℝ) (ell : Ellipsoid) :
+    let σ := (finalState lat1 lat2 dlon ell).1
+    let α := (finalState lat1 lat2 dlon ell).2.1
+    let c := (finalState lat1 lat2 dlon ell).2.2.1
+    let u := Real.cos α ^ 2 * (ell.semimaj ^ 2 - ell.semimin ^ 2) / ell.semimin ^ 2
+    let A := 1 + u / 4 - 3 * u ^ 2 / 64 + 5 * u ^ 3 / 256 - 175 * u ^ 4 / 16384
+    let B := u / 4 - u ^ 2 / 8 + 37 * u ^ 3 / 512 - 47 * u ^ 4 / 1024
+    let Δσ := B * Real.sin σ * (c + B / 4 * (Real.cos σ * (-1 + 2 * c ^ 2)
+                - B / 6 * c * (-3 + 4 * Real.sin σ ^ 2) * (-3 + 4 * c ^ 2)))
+    (raw lat1 lat2 dlon ell).1 = ell.semimin * A * (σ - Δσ) := by
+  intro σ α c u A B Δσ
+  have hA := (vincenty_AB_ref u).1
+  have hB := (vincenty_AB_ref u).2
+  have hu : uSq ell α = u := u_squared_def ell α
+  show distRaw ell (finalState lat1 lat2 dlon ell) = _
+  unfold distRaw deltaSigma
+  rw [hu, hA, hB]
+
+/-! ## 8. rounding -/
+
+/-- C05.8: the returned distance is within 0.5 mm of the unrounded value, the azimuths within
+0.5·10⁻⁹ degrees. -/
+theorem rounding_close (lat1 lon1 lat2 lon2 : ℝ) (ell : Ellipsoid)
+    (h : ¬ (|lat1 - lat2| < 1 / 10 ^ 10 ∧ |lon1 - lon2| < 1 / 10 ^ 10)) :
+    |(vincinv lat1 lon1 lat2 lon2 ell).1 - (raw lat1 lat2 (lon2 - lon1) ell).1| ≤ 1 / 2 / 10 ^ 3 ∧
+    |(vincinv lat1 lon1 lat2 lon2 ell).2.1 - (raw lat1 lat2 (lon2 - lon1) ell).2.1| ≤ 1 / 2 / 10 ^ 9 ∧
+    |(vincinv lat1 lon1 lat2 lon2 ell).2.2 - (raw lat1 lat2 (lon2 - lon1) ell).2.2| ≤ 1 / 2 / 10 ^ 9 := by
+  rw [not_coincident_raw _ _ _ _ _ h]
+  exact ⟨pround_close _ _, pround_close _ _, pround_close _ _⟩
+
+/-! ## 7. loop exit -/
+
+/-- the longitude iterates: `λ₀ = ω`, `λ_{j+1} = newLon λ_j` -/
+def lam (u1 u2 omega f : ℝ) (j : ℕ) : ℝ := (newLon u1 u2 omega f)^[j] omega
+
+theorem lam_zero (u1 u2 omega f : ℝ) : lam u1 u2 omega f 0 = omega := rfl
+
+theorem lam_succ (u1 u2 omega f : ℝ) (j : ℕ) :
+    lam u1 u2 omega f (j + 1) = newLon u1 u2 omega f (lam u1 u2 omega f j) := by
+  unfold lam; rw [Function.iterate_succ_apply']
+
+/-- the state update of the loop body -/
+def next (u1 u2 omega f : ℝ) : St → St := fun x => (body u1 u2 omega f x).1
+
+theorem next_eq (u1 u2 omega f : ℝ) (x : St) :
+    next u1 u2 omega f x = (sigmaOf u1 u2 x.2.2.2, alphaOf u1 u2 x.2.2.2, c2smOf u1 u2 x.2.2.2,
+      newLon u1 u2 omega f x.2.2.2) := rfl
+
+theorem body_snd (u1 u2 omega f : ℝ) (x : St) :
+    (body u1 u2 omega f x).2 = decide ((absf ((newLon u1 u2 omega f x.2.2.2) - x.2.2.2)) < (dec 1 12)) := rfl
+
+theorem iterate_next_lon (u1 u2 omega f : ℝ) (s0 : St) (hs : s0.2.2.2 = omega) (j : ℕ) :
+    ((next u1 u2 omega f)^[j] s0).2.2.2 = lam u1 u2 omega f j := by
+  induction j with
+  | zero => exact hs
+  | succ j ih =>
+    rw [Function.iterate_succ_apply', next_eq, lam_succ, ← ih]
+
+theorem iterate_next_succ (u1 u2 omega f : ℝ) (s0 : St) (hs : s0.2.2.2 = omega) (j : ℕ) :
+    (next u1 u2 omega f)^[j + 1] s0 =
+      (sigmaOf u1 u2 (lam u1 u2 omega f j), alphaOf u1 u2 (lam u1 u2 omega f j),
+        c2smOf u1 u2 (lam u1 u2 omega f j), lam u1 u2 omega f (j + 1)) := by
+  rw [Function.iterate_succ_apply', next_eq, iterate_next_lon u1 u2 omega f s0 hs j, lam_succ]
+
+theorem body_break_iff (u1 u2 omega f : ℝ) (s0 : St) (hs : s0.2.2.2 = omega) (j : ℕ) :
+    (body u1 u2 omega f ((next u1 u2 omega f)^[j] s0)).2 = true ↔
+      |lam u1 u2 omega f (j + 1) - lam u1 u2 omega f j| < 1 / 10 ^ 12 := by
+  rw [body_snd, decide_eq_true_eq, iterate_next_lon u1 u2 omega f s0 hs j, lam_succ]
+  simp only [absf_def, dec_def, Nat.cast_one]
+
+/-- C05.7: the loop ends after `k` passes, `1 ≤ k ≤ 1000`, in the state
+`(σ(λ_{k−1}), α(λ_{k−1}), cos 2σ_m(λ_{k−1}), λ_k)`; no earlier pass met the break test; and either
+the last pass did (`|λ_k − λ_{k−1}| < 10⁻¹²`) or all 1000 passes ran without meeting it. -/
+theorem lambda_exit (lat1 lat2 dlon : ℝ) (ell : Ellipsoid) :
+    let u1 := redLat ell.f lat1
+    let u2 := redLat ell.f lat2
+    let lam := lam u1 u2 (radians dlon) ell.f
+    ∃ k, 1 ≤ k ∧ k ≤ 1000 ∧
+      finalState lat1 lat2 dlon ell =
+        (sigmaOf u1 u2 (lam (k - 1)), alphaOf u1 u2 (lam (k - 1)), c2smOf u1 u2 (lam (k - 1)), lam k) ∧
+      (∀ j, j + 1 < k → ¬ |lam (j + 1) - lam j| < 1 / 10 ^ 12) ∧
+      (|lam k - lam (k - 1)| < 1 / 10 ^ 12 ∨
+        (k = 1000 ∧ ∀ j, j < 1000 → ¬ |lam (j + 1) - lam j| < 1 / 10 ^ 12)) := by
+  intro u1 u2 lam'
+  obtain ⟨k, hk, hf, hmid, hend⟩ := forBreak_exit (body u1 u2 (radians dlon) ell.f) 1000
+    ((0 : ℝ), (0 : ℝ), (0 : ℝ), radians dlon)
+  change _ = (next u1 u2 (radians dlon) ell.f)^[k] _ at hf
+  change ∀ j, j + 1 < k → (body u1 u2 (radians dlon) ell.f ((next u1 u2 (radians dlon) ell.f)^[j] _)).2 = false at hmid
+  change (0 < k ∧ (body u1 u2 (radians dlon) ell.f ((next u1 u2 (radians dlon) ell.f)^[k - 1] _)).2 = true) ∨
+    (k = 1000 ∧ ∀ j, j < 1000 → (body u1 u2 (radians dlon) ell.f ((next u1 u2 (radians dlon) ell.f)^[j] _)).2 = false) at hend
+  have hs : (((0 : ℝ), (0 : ℝ), (0 : ℝ), radians dlon) : St).2.2.2 = radians dlon := rfl
+  have hk1 : 1 ≤ k := by
+    rcases hend with ⟨h0, _⟩ | ⟨h0, _⟩ <;> omega
+  obtain ⟨k', rfl⟩ : ∃ k', k = k' + 1 := ⟨k - 1, by omega⟩
+  refine ⟨k' + 1, hk1, hk, ?_, ?_, ?_⟩
+  · show forBreak 1000 (body u1 u2 (radians dlon) ell.f) _ = _
+    rw [hf, iterate_next_succ _ _ _ _ _ hs]
+    rfl
+  · intro j hj hlt
+    have := hmid j hj
+    rw [(body_break_iff _ _ _ _ _ hs j).2 hlt] at this
+    exact Bool.noConfusion this
+  · rcases hend with ⟨_, hlast⟩ | ⟨hkn, hall⟩
+    · left
+      exact (body_break_iff _ _ _ _ _ hs _).1 hlast
+    · right
+      refine ⟨hkn, fun j hj hlt => ?_⟩
+      have := hall j hj
+      rw [(body_break_iff _ _ _ _ _ hs j).2 hlt] at this
+      exact Bool.noConfusion this
+
+/-! ## axiom audit -/
+#print axioms vincinv_eq
+#print axioms coincident
+#print axioms not_coincident
+#print axioms shift_invariant
+#print axioms periodic
+#print axioms periodic_sub
+#print axioms swap_symmetric_distance
+#print axioms swap_symmetric_azimuths
+#print axioms azimuth_range
+#print axioms azimuth_range_rounded
+#print axioms vincenty_AB_ref
+#print axioms vincenty_C_ref
+#print axioms u_squared_def
+#print axioms distance_formula
+#print axioms lambda_exit
+#print axioms rounding_close
+
 end GeodeVerif.C05
